@@ -1,2 +1,223 @@
-(* C09 — SCTE-35 encoding (statements added as they are proved). *)
-From Gots Require Import Base.Prelude Model.Scte Spec.Scte35Spec.
+(* C09 — SCTE-35 encoding is canonical, CRC-correct and inverse to decoding; setters are reflected.
+   Statements only; proofs in Proofs/ScteEncode.v, ScteRoundtrip.v, ScteSetters.v.  Vocabulary:
+   - Model/ScteEnc.v: the struct with its setters as state transformers (`apply_sig_op`, `run_script` = fold_left),
+     `update_data` = UpdateData (returns the bytes and the updated struct), Data() of commands and descriptors;
+   - Proofs/ScteLogical.v: `logical fs st` = the SCTE 35 logical record carried by state st (fs = the foreign
+     descriptors whose bytes st keeps opaque), with CRC_32 := ComputeCRC of the preceding bytes; `normal fs st` =
+     every field within its wire width, section_length < 1024 (the encoder keeps 10 bits), UPID/MID exclusivity,
+     every emitted splice_time() carries a time (see C09_untimed_refuted);
+   - Proofs/ScteRoundtrip.v: `decodable` = normal + table_id 0xFC + clear + well-formed foreign descriptors.
+   The CRC is stated against Scte.crc_model, the transliteration of gots.ComputeCRC; Module Crc (C13) proves that
+   algorithm equal to CRC-32/MPEG-2, whence "the CRC of the whole section is zero". *)
+From Gots Require Import Base.Prelude Model.Pts Model.Scte Model.ScteEnc Spec.Scte35Spec
+  Proofs.ScteExpected Proofs.ScteLogical Proofs.ScteDecode Proofs.ScteEncode Proofs.ScteRoundtrip Proofs.ScteSetters.
+Import Scte ScteEnc Scte35Spec.
+Local Open Scope N_scope.
+
+(* the bytes of UpdateData are the SCTE 35 serialisation of the state's field values: table header, reserved bits 1,
+   sub-structures present exactly when their flags say so, foreign descriptors first and preserved, then the
+   segmentation descriptors in order, stuffing, CRC *)
+Theorem C09_encode_canonical : forall fs st, normal fs st -> fst (update_data st) = ser_section (logical fs st).
+Proof. exact encode_canonical. Qed.
+Print Assumptions C09_encode_canonical.
+
+(* section_length, splice_command_length, descriptor_loop_length: in ser_section they are by definition the lengths of
+   what follows (Spec: section_length, cmd_len_field with si_legacy_len = false, to_be16 (len (ser_descriptors _)));
+   in addition the total length and the 10-bit bound *)
+Theorem C09_lengths_ok : forall fs st, normal fs st ->
+  let L := logical fs st in
+  si_legacy_len L = false /\ cmd_len_field L = len (ser_command (si_cmd L)) /\
+  len (fst (update_data st)) = 3 + section_length L /\ section_length L < 1024.
+Proof. exact lengths_ok. Qed.
+Print Assumptions C09_lengths_ok.
+
+(* CRC clause, for EVERY state: the last four bytes are ComputeCRC of the preceding section bytes *)
+Theorem C09_crc_clause : forall st, exists body,
+  fst (update_data st) = body ++ crc_model body /\ len (crc_model body) = 4.
+Proof. exact crc_clause. Qed.
+Print Assumptions C09_crc_clause.
+
+(* decoding what was encoded (pointer_field 0) reports the state's logical field values *)
+Theorem C09_decode_encode : forall fs st, decodable fs st ->
+  new_scte35 (0 :: fst (update_data st)) = Ok (expected (logical fs st)).
+Proof. exact decode_encode. Qed.
+Print Assumptions C09_decode_encode.
+
+(* encoding is idempotent (for every state), and Data() afterwards is what UpdateData returned *)
+Theorem C09_encode_idempotent : forall st, fst (update_data (snd (update_data st))) = fst (update_data st).
+Proof. exact encode_idempotent. Qed.
+Print Assumptions C09_encode_idempotent.
+Theorem C09_update_data_stores : forall st, s_data (snd (update_data st)) = fst (update_data st).
+Proof. exact update_data_stores. Qed.
+Print Assumptions C09_update_data_stores.
+
+(* the raw-data accessor changes only when the signal is re-encoded: over every history without UpdateData *)
+Theorem C09_data_stable : forall s ops, ~ In SUpdateData ops -> s_data (run_script s ops) = s_data s.
+Proof. exact data_stable. Qed.
+Print Assumptions C09_data_stable.
+
+(* setters are reflected by the matching getter, after ANY history `ops` from ANY start s0 (fold_left);
+   values are truncated to the field width *)
+Theorem C09_set_tier : forall s0 ops v, s_tier (run_script s0 (ops ++ [SSetTier v])) = v mod 4096.
+Proof. exact set_tier. Qed.
+Print Assumptions C09_set_tier.
+Theorem C09_set_adjust_pts : forall s0 ops v, s_pts (run_script s0 (ops ++ [SSetAdjustPTS v])) = v.
+Proof. exact set_adjust_pts. Qed.
+Print Assumptions C09_set_adjust_pts.
+Theorem C09_set_pts : forall s0 ops v,
+  let s := run_script s0 ops in
+  let s' := run_script s0 (ops ++ [SSetPTS v]) in
+  s_pts s' = v /\ (s_cmd s = CNull \/ cmd_pts (s_cmd s') = v mod 8589934592) /\
+  cmd_has_pts (s_cmd s') = cmd_has_pts (s_cmd s).
+Proof. exact set_pts. Qed.
+Print Assumptions C09_set_pts.
+(* flags can be cleared as well as set (F9: SetHasPTS(false) used to set true) *)
+Theorem C09_set_has_pts : forall s0 ops b,
+  let s := run_script s0 ops in
+  let s' := run_script s0 (ops ++ [SSetHasPTS b]) in
+  (s_cmd s = CNull \/ cmd_has_pts (s_cmd s') = b) /\ cmd_pts (s_cmd s') = cmd_pts (s_cmd s) /\ s_pts s' = s_pts s.
+Proof. exact set_has_pts. Qed.
+Print Assumptions C09_set_has_pts.
+Theorem C09_set_stuffing : forall s0 ops v, s_stuffing (run_script s0 (ops ++ [SSetAlignmentStuffing v])) = v.
+Proof. exact set_stuffing. Qed.
+Print Assumptions C09_set_stuffing.
+Theorem C09_set_command_info : forall s0 ops k cops,
+  let s' := run_script s0 (ops ++ [SSetCommandInfo k cops]) in
+  s_cmd s' = fold_left (fun c o => apply_cmd_op o c) cops (create_cmd k) /\ s_cmd_type s' = cmd_type (s_cmd s').
+Proof. exact set_command_info. Qed.
+Print Assumptions C09_set_command_info.
+Theorem C09_set_descriptors : forall s0 ops ds,
+  let s := run_script s0 ops in
+  let s' := run_script s0 (ops ++ [SSetDescriptors ds]) in
+  s_descs s' = map (build_desc (s_id s)) ds /\ Forall (fun d => d_owner d = Some (s_id s')) (s_descs s').
+Proof. exact set_descriptors. Qed.
+Print Assumptions C09_set_descriptors.
+Theorem C09_set_tier_frame : forall s0 ops v,
+  let s := run_script s0 ops in
+  let s' := run_script s0 (ops ++ [SSetTier v]) in
+  s_pts s' = s_pts s /\ s_cmd s' = s_cmd s /\ s_descs s' = s_descs s /\ s_stuffing s' = s_stuffing s /\ s_cmd_type s' = s_cmd_type s.
+Proof. exact set_tier_frame. Qed.
+Print Assumptions C09_set_tier_frame.
+
+(* every setter of SpliceInsertCommand / SegmentationDescriptor, on every object state *)
+Theorem C09_insert_setters : forall i,
+  (forall v, i_event_id (apply_ins_op (ISetEventID v) i) = v) /\
+  (forall b, i_out (apply_ins_op (ISetIsOut b) i) = b) /\
+  (forall b, i_cancel (apply_ins_op (ISetIsEventCanceled b) i) = b) /\
+  (forall b, i_has_pts (apply_ins_op (KSetHasPTS b) i) = b) /\
+  (forall v, i_pts (apply_ins_op (KSetPTS v) i) = v mod 8589934592) /\
+  (forall b, i_has_duration (apply_ins_op (ISetHasDuration b) i) = b) /\
+  (forall v, i_duration (apply_ins_op (ISetDuration v) i) = v) /\
+  (forall b, i_auto_return (apply_ins_op (ISetIsAutoReturn b) i) = b) /\
+  (forall v, i_unique_program_id (apply_ins_op (ISetUniqueProgramId v) i) = v) /\
+  (forall v, i_avail_num (apply_ins_op (ISetAvailNum v) i) = v) /\
+  (forall v, i_avails_expected (apply_ins_op (ISetAvailsExpected v) i) = v) /\
+  (forall b, i_program (apply_ins_op (ISetIsProgramSplice b) i) = b) /\
+  (forall b, i_immediate (apply_ins_op (ISetSpliceImmediate b) i) = b).
+Proof. exact ins_setters. Qed.
+Print Assumptions C09_insert_setters.
+Theorem C09_desc_setters : forall d,
+  (forall v, d_event_id (apply_desc_op (DSetEventID v) d) = v) /\
+  (forall v, d_type (apply_desc_op (DSetTypeID v) d) = v) /\
+  (forall b, d_cancel (apply_desc_op (DSetIsEventCanceled b) d) = b) /\
+  (forall b, d_has_duration (apply_desc_op (DSetHasDuration b) d) = b) /\
+  (forall v, d_duration (apply_desc_op (DSetDuration v) d) = v mod 1099511627776) /\
+  (forall v, d_upid_type (apply_desc_op (DSetUPIDType v) d) = v) /\
+  (forall v, d_seg_num (apply_desc_op (DSetSegmentNumber v) d) = v) /\
+  (forall v, d_segs_expected (apply_desc_op (DSetSegmentsExpected v) d) = v) /\
+  (forall v, d_sub_seg_num (apply_desc_op (DSetSubSegmentNumber v) d) = v) /\
+  (forall v, d_sub_segs_expected (apply_desc_op (DSetSubSegmentsExpected v) d) = v) /\
+  (forall b, d_program_seg (apply_desc_op (DSetHasProgramSegmentation b) d) = b) /\
+  (forall b, d_dnr (apply_desc_op (DSetIsDeliveryNotRestricted b) d) = b) /\
+  (forall b, d_web (apply_desc_op (DSetIsWebDeliveryAllowed b) d) = b) /\
+  (forall b, d_archive (apply_desc_op (DSetIsArchiveAllowed b) d) = b) /\
+  (forall b, d_noblackout (apply_desc_op (DSetHasNoRegionalBlackout b) d) = b) /\
+  (forall v, d_device (apply_desc_op (DSetDeviceRestrictions v) d) = v) /\
+  (forall b, d_has_sub (apply_desc_op (DSetHasSubSegments b) d) = b) /\
+  (forall l, d_components (apply_desc_op (DSetComponents l) d) = map (fun e => mkco (fst e) (snd e)) l).
+Proof. exact desc_setters. Qed.
+Print Assumptions C09_desc_setters.
+Theorem C09_desc_upid_laws : forall d,
+  (forall b, d_upid_type d <> SegUPIDMID -> get_upid (apply_desc_op (DSetUPID b) d) = b) /\
+  (forall b, d_upid_type d = SegUPIDMID -> apply_desc_op (DSetUPID b) d = d) /\
+  (forall l, d_upid_type d = SegUPIDMID ->
+     get_mid (apply_desc_op (DSetMID l) d) = map (fun e => mkupid (fst e) (len (snd e)) (snd e)) l) /\
+  (forall l, d_upid_type d <> SegUPIDMID -> apply_desc_op (DSetMID l) d = d).
+Proof. exact desc_upid_laws. Qed.
+Print Assumptions C09_desc_upid_laws.
+
+(* every history from CreateSCTE35 keeps: command type consistent, tier 12 bits, command / component pts 33 bits,
+   UPID / MID exclusivity, 40-bit durations, descriptors owned by the signal, table header of a splice_info_section *)
+Theorem C09_history_inv : forall ops, sig_inv (run_script create_scte35 ops).
+Proof. exact history_inv. Qed.
+Print Assumptions C09_history_inv.
+(* "reflected by the next encoding": C09_encode_canonical says the next encoding is ser_section (logical fs st), and
+   logical reads exactly the fields the getters return; so the setter laws above carry over to the bytes whenever
+   the resulting state is normal. *)
+
+(* ---- refuted clauses (faithful model of the code as it is; replayed on the real code by bin/check) ---- *)
+(* (a) a splice_time() without time is written 0x7E, reserved bit 0 cleared: a canonical component-mode section with an
+   untimed component is decoded correctly but NOT reproduced byte for byte *)
+Definition untimed_section : splice_info :=
+  mksi [] 252 false false 3 0 false 0 0 0 4095 false
+       (Insert 1 (Some (mkib false (CompTimed [(7, None)]) None 0 0 0))) [] [] 0.
+Theorem C09_untimed_refuted : exists s sc, supported s /\ new_scte35 (ser_splice_info s) = Ok sc /\
+  firstn 23 (fst (update_data sc)) <> firstn 23 (ser_section s).
+Proof.
+  exists untimed_section, (expected untimed_section).
+  assert (H : supported untimed_section).
+  { unfold supported, wf_decode, untimed_section. cbn. repeat (split || constructor); cbn; try lia; try discriminate; auto. }
+  split; [exact H|]. split; [apply decode_ser; exact H|]. vm_compute. intros C. discriminate C.
+Qed.
+Print Assumptions C09_untimed_refuted.
+
+(* (b) UPID.SetUPID through MID()[j] leaves the element's length stale: after it the next encoding is not decodable *)
+Definition stale_script : list sig_op :=
+  [SSetDescriptors [[DSetUPIDType 13; DSetMID [(9, [1; 2])]]]; SDesc 0 (DMidSetUPID 0 [1; 2; 3; 4])].
+Theorem C09_mid_setupid_refuted :
+  let st := run_script create_scte35 stale_script in
+  map (fun u => u_upid u) (get_mid (nth 0 (s_descs st) (seg0 None))) = [[1; 2; 3; 4]] /\
+  new_scte35 (0 :: fst (update_data st)) = Err E.InvalidSCTE35Length.
+Proof. vm_compute. split; reflexivity. Qed.
+Print Assumptions C09_mid_setupid_refuted.
+
+(* (c) the decoder drops pts_adjustment of a splice_null, so such a section is not reproduced *)
+Definition null_adj_section : splice_info :=
+  mksi [] 252 false false 3 0 false 0 5 0 4095 false Null [] [] 0.
+Theorem C09_null_adjustment_refuted : exists s sc, supported s /\ new_scte35 (ser_splice_info s) = Ok sc /\
+  firstn 16 (fst (update_data sc)) <> firstn 16 (ser_section s).
+Proof.
+  exists null_adj_section, (expected null_adj_section).
+  assert (H : supported null_adj_section).
+  { unfold supported, wf_decode, null_adj_section. cbn. repeat (split || constructor); cbn; try lia; try discriminate; auto. }
+  split; [exact H|]. split; [apply decode_ser; exact H|]. vm_compute. intros C. discriminate C.
+Qed.
+Print Assumptions C09_null_adjustment_refuted.
+
+(* ---- non-vacuity: a history from CreateSCTE35 reaching a normal, decodable state with a timed splice_insert with
+   break_duration and two descriptors (components with bit 32, 40-bit duration, MID list, sub-segments) ---- *)
+Definition ex_script : list sig_op :=
+  [SSetCommandInfo 2 [ISetEventID 4294967295; ISetIsOut true; KSetHasPTS true; KSetPTS 8589934591;
+                      ISetHasDuration true; ISetDuration 8589934591; ISetIsAutoReturn true; ISetUniqueProgramId 65535];
+   SSetAdjustPTS 5; SSetTier 2748;
+   SSetDescriptors [[DSetEventID 7; DSetComponents [(1, 8589934591)]; DSetHasDuration true; DSetDuration 1099511627775;
+                     DSetUPIDType 13; DSetMID [(9, [66; 76]); (14, [])]; DSetTypeID 52; DSetHasSubSegments true;
+                     DSetSubSegmentNumber 1; DSetSubSegmentsExpected 2];
+                    [DSetEventID 8; DSetIsEventCanceled true]];
+   SSetHasPTS false; SSetHasPTS true].
+Definition ex_state : scte := Eval vm_compute in run_script create_scte35 ex_script.
+Example C09_example_is_history : run_script create_scte35 ex_script = ex_state.
+Proof. vm_compute. reflexivity. Qed.
+Example C09_example_decodable : decodable [] ex_state.
+Proof.
+  unfold decodable, normal, ex_state.
+  cbn [s_tid s_protocol s_enc_alg s_cw s_tier s_pts s_cmd s_cmd_type s_descs s_other s_stuffing s_encrypted cmd_pts i_pts].
+  repeat split; try reflexivity; try (constructor; fail).
+  constructor; [|constructor; [|constructor]]; unfold normal_desc;
+    cbn [d_type d_event_id d_has_duration d_duration d_upid_type d_upid d_mid d_seg_num d_segs_expected d_sub_seg_num
+         d_sub_segs_expected d_owner d_cancel d_dnr d_has_sub d_program_seg d_web d_noblackout d_archive d_device d_components];
+    (split; [reflexivity|]); intros Hc; try discriminate Hc;
+    repeat split; intros; try discriminate; try reflexivity;
+    try (exfalso; match goal with H : _ <> _ |- _ => apply H; reflexivity end);
+    repeat (constructor; cbn [co_tag co_off u_type u_len u_upid]; repeat split; try reflexivity).
+Qed.
